@@ -132,7 +132,8 @@ using KernelT = TKernel<Real, Idx>;
 using AlgoT = TbfAlgorithmTsm<Real, KernelT, Idx>;
 
 static void forkCfg(long& a0, long& a1, long& a3){
-    if(a0 < 0) a0 = 1 + irsym_choose(-a0);
+    if(a0 == -100) a0 = -1;          // automatic block size (EstimateTsm)
+    else if(a0 < 0) a0 = 1 + irsym_choose(-a0);
     if(a1 < 0) a1 = irsym_choose(2);
     if(a3 == -2) a3 = irsym_choose(2) ? 0 : -1;
     irsym_note(1, a0); irsym_note(2, a1); irsym_note(3, a3);
@@ -222,8 +223,10 @@ ENTRY(h_c09){
         for(long i = 0; i < hdr.nbParticles; ++i, ++sseen) for(int v = 0; v < DIM + NEXTRA; ++v){ const DataT e = static_cast<DataT>(gP.pos[pidx[i]][v]); srcSame = srcSame && std::memcmp(&data[v][i], &e, sizeof(DataT)) == 0; }
     });
     irsym_assert(srcSame && sseen == NS, Y_SRC_UNTOUCHED);
-    checkStructureN([&](long l) -> const auto& { return tree.getCellGroupsAtLevelSource(l); }, space, leafIdx, 0, NS, a0, a1 != 0, S_LEVEL_SET);
-    checkStructureN([&](long l) -> const auto& { return tree.getCellGroupsAtLevelTarget(l); }, space, leafIdx, NS, NT, a0, a1 != 0, S_LEVEL_SET);
+    const long bsS = a0 == -1 ? tree.getNbElementsPerGroupSource() : a0, bsT = a0 == -1 ? tree.getNbElementsPerGroupTarget() : a0;
+    irsym_assert(bsS >= 1 && bsT >= 1, S_BLOCKSIZE);
+    checkStructureN([&](long l) -> const auto& { return tree.getCellGroupsAtLevelSource(l); }, space, leafIdx, 0, NS, bsS, a1 != 0, S_LEVEL_SET);
+    checkStructureN([&](long l) -> const auto& { return tree.getCellGroupsAtLevelTarget(l); }, space, leafIdx, NS, NT, bsT, a1 != 0, S_LEVEL_SET);
     // lookups on both trees (C16)
     bool lk = true;
     for(long level = 0; level < HEIGHT; ++level){
